@@ -65,6 +65,7 @@ def histories(draw, tier):
                                   st.tuples(st.just("group"), st.integers(0, 6)).map(list),
                                   st.tuples(st.just("group"), st.integers(0, 6)).map(list),
                                   st.tuples(st.just("close-group"), st.integers(0, 6)).map(list),
+                                  st.tuples(st.just("reiter"), st.integers(0, 6)).map(list),
                                   st.just(["close-current"])),
                         min_size=draw(st.sampled_from([0, 4, 6])), max_size=15 if tier == "quick" else 25))
     return {"items": items, "key": key, "keyfl": draw(st.sampled_from(["def", "async", "obj"])),
@@ -110,14 +111,28 @@ def check(case):
                     want, gs = ("raise", type(exc).__name__, planned_name(ctx_s, exc)), None
                 if got != want:
                     return ("groupby-advance-differs", f"step {step}: async={got} itertools={want}")
-                if got[0] == "raise":
+                if got[0] == "raise" and not (fault and fault[0] == "key"):
                     return None
+                # (a key function that failed for one item of a run that is being skipped: that item is dropped, and
+                #  an advance that is tried again goes on skipping - the run stays one run)
+                if got[0] == "raise":
+                    continue
                 if ga is not None:
                     if groups_a and taken_from_current >= 1:
                         flags["partial"] = True
                     groups_a.append(ga)
                     groups_s.append(gs)
                     taken_from_current = 0
+            elif op[0] == "reiter":
+                # the consumer starts another loop over the same groupby / the same group (header first, then the
+                # rest): asking an iterator for its iterator changes nothing
+                gb_a2, gb_s2 = gb_a.__aiter__(), iter(gb_s)
+                if gb_a2 is not gb_a:
+                    return ("aiter-of-the-groupby-is-another-object", f"step {step}")
+                if groups_a:
+                    i = op[1] % len(groups_a)
+                    if i not in closed and groups_a[i].__aiter__() is not groups_a[i]:
+                        return ("aiter-of-a-group-is-another-object", f"step {step} group {i}")
             elif op[0] == "close-group":
                 # itertools groups cannot be closed; closing a STALE asyncstdlib group must change nothing
                 if len(groups_a) >= 2:
